@@ -147,6 +147,13 @@ class Ctx:
         class, module, table) stays an AnalysisError (exit 2); a construct
         that is present but whose shape the rule does not understand is
         recorded as undecided and the run goes on."""
+        self._attempt_depth = getattr(self, '_attempt_depth', 0) + 1
+        try:
+            return self._attempt(fn, rule, construct, args, kw)
+        finally:
+            self._attempt_depth -= 1
+
+    def _attempt(self, fn, rule, construct, args, kw):
         try:
             return fn(self, *args, **kw)
         except AnalysisError as e:
@@ -159,6 +166,15 @@ class Ctx:
                 # legitimately be renamed / restructured: undecided
                 if self._is_primary(msg):
                     raise
+            self.undecided(rule, construct or getattr(fn, '__name__', 'rule group'), msg)
+            return None
+        except (IndexError, KeyError, AttributeError, TypeError, ValueError, StopIteration, RecursionError) as e:
+            # the rule met a shape of code it was not written for: it decides nothing (it is not a
+            # finding about the repository); kept visible in the evidence and the summary line
+            import traceback as _tb
+            where = _tb.extract_tb(e.__traceback__)[-1]
+            msg = f"internal: {type(e).__name__}: {e} ({where.filename.split('/')[-1]}:{where.lineno})"
+            self.notes.setdefault('internal_errors', []).append(f"{getattr(fn, '__name__', 'rule group')}: {msg}")
             self.undecided(rule, construct or getattr(fn, '__name__', 'rule group'), msg)
             return None
 
@@ -200,7 +216,11 @@ class Ctx:
         analysis lost its anchors (exit 2), never a pass."""
         if 0 < found < minimum:
             # some instances are still there: a refactor merged / removed sites that were
-            # confirmed by hand; the rule is not vacuous, what it no longer sees is undecided
+            # confirmed by hand; the rule is not vacuous, what it no longer sees is undecided.
+            # Inside a rule group the whole group gives up (what follows usually needs the full
+            # set); at the top level of a check the run goes on.
+            if getattr(self, '_attempt_depth', 0) > 0:
+                raise AnalysisError(f"anchor floor: {what}: found {found}, expected >= {minimum}")
             self.undecided('FLOOR', what, f"found {found} instance(s), {minimum} were confirmed on the pinned tree")
             self.notes.setdefault('floors', {})[what] = {'found': found, 'min': minimum}
             return False
@@ -307,7 +327,8 @@ def run_property(prop, check_fn, meta, repo_root=REPO_DEFAULT, tier='quick',
                 if o['verdict'] == 'undecided':
                     print(f"  undecided {o['rule']} {o['construct']}: {o['detail'][:120]}")
         print(f"{prop}: {len(ctx.obligations)} obligations, {n_ok} discharged, "
-              f"{len(matched)} known findings, {len(new)} violations "
+              f"{len(matched)} known findings, {len(new)} violations"
+              f"{', ' + str(len(ctx.notes.get('internal_errors', []))) + ' rule group(s) gave up on an unexpected shape' if ctx.notes.get('internal_errors') else ''} "
               f"[{tier}, {time.time() - t0:.2f}s, "
               f"{ctx.repo.stats()['files']} files / {ctx.repo.stats()['functions']} functions parsed, "
               f"0 repo modules imported]")
